@@ -18,7 +18,7 @@ BUDGET = {"quick": 200, "thorough": 3000}
 RULE = (
     "Cases = (supported model - larger than the C01 bounds: grids up to 12 nodes, T up to 5 -, one law). (a) affine: "
     "utility' = a*utility + b with a in [0.1,10], b in [-5,5] (wrapper function appended to the specification): "
-    "V'_t = a*V_t + b*sum_{k=0}^{T-1-t} beta^k (1e-9 relative to max(1,|V'|)). (b) beta=0: V_t equals the solution of "
+    "V'_t = a*V_t + b*sum_{k=0}^{T-1-t} beta^k (1e-9 relative to max(1,|V'|); a sub-stream uses models in which last-period states have no feasible choice, so that values of -inf propagate: the pattern of non-finite entries must agree). (b) beta=0: V_t equals the solution of "
     "the ONE-PERIOD model obtained by substituting the literal t for the period in every non-transition function, "
     "for every t. (c) models in which no function mentions the period, horizons T1 < T2: V^{T2}_{T2-k} = "
     "V^{T1}_{T1-k} for k=1..T1 (1e-12). (d) a stochastic state with one-hot transition rows vs the same model with the "
@@ -34,16 +34,22 @@ BIG = dict(max_cont_state_nodes=12, max_cont_choice_nodes=10, max_points=150_000
 PROFILE = Profile(name="laws", min_periods=1, max_periods=5, p_filter=0.5, **BIG)
 PROFILE_NOPERIOD = Profile(name="laws_noperiod", min_periods=1, max_periods=3, allow_period=False, p_filter=0.5,
                            filter_modes=("keep_all", "free"), **BIG)
+PROFILE_INFEASIBLE = Profile(name="laws_infeasible", min_periods=2, max_periods=3, free_constraints=0.9,
+                             p_table_constraint=1.0, free_p_true=0.35, p_filter=0.3, max_disc_choices=2,
+                             max_cont_states=1, max_cont_choices=1, max_points=40_000)
 PROFILE_STOCH = Profile(name="laws_stoch", min_periods=2, max_periods=4, p_stoch=0.9, max_disc_states=3, p_filter=0.4,
                         max_points=40_000)
 
 
 @st.composite
 def cases(draw):
-    law = draw(st.sampled_from(["affine", "beta0", "horizon", "degenerate"]))
-    prof = {"affine": PROFILE, "beta0": PROFILE, "horizon": PROFILE_NOPERIOD, "degenerate": PROFILE_STOCH}[law]
+    law = draw(st.sampled_from(["affine", "affine_infeasible", "beta0", "horizon", "degenerate"]))
+    prof = {"affine": PROFILE, "affine_infeasible": PROFILE_INFEASIBLE, "beta0": PROFILE, "horizon": PROFILE_NOPERIOD,
+            "degenerate": PROFILE_STOCH}[law]
+    infeasible_ok = law == "affine_infeasible"
+    law = "affine" if infeasible_ok else law
     spec = draw(model_specs(prof))
-    c = {"spec": spec.to_json(), "law": law,
+    c = {"spec": spec.to_json(), "law": law, "infeasible_ok": infeasible_ok,
          "a": draw(st.integers(1, 100)) / 10, "b": draw(st.integers(-50, 50)) / 10,
          "extra_T": draw(st.integers(1, 3))}
     if law == "degenerate":
@@ -137,12 +143,13 @@ def check(case):
     spec, ref, skip = prepare({"spec": spec.to_json()})
     if skip:
         return Outcome(status="skip", reason=skip, digest=dg)
-    if not all(np.isfinite(ref.to_lcm_layout(v, t)).all() for t, v in enumerate(ref.V)):
+    nonfinite = not all(np.isfinite(ref.to_lcm_layout(v, t)).all() for t, v in enumerate(ref.V))
+    if nonfinite and not case.get("infeasible_ok"):
         return Outcome(status="skip", reason="nonfinite_reference", digest=dg)
     T = spec.n_periods
     beta = float(spec.params["beta"])
     msgs, nt = [], False
-    cl = [f"law_{law}"] + model_classes(spec, ref)
+    cl = [f"law_{law}"] + model_classes(spec, ref) + (["states_of_value_minus_inf"] if nonfinite else [])
     base = lcm_solve(spec)
     if law == "affine":
         a, b = case["a"], case["b"]
